@@ -34,6 +34,15 @@ pub fn det_source(idx: u64) -> String {
         }
     }
     s.push_str("unsigned char a, b;\nchar *p; char *q;\n");
+    // function-like macros whose NAME is shared by all bait sources while the parameter list
+    // differs from one source to the next (a cache keyed by the name alone would go stale)
+    match idx % 3 {
+        0 => s.push_str("#define SUB(x, y) ((x) - (y))\n#define PICK(m) (m + 1)\n"),
+        1 => s.push_str("#define SUB(y, x) ((x) - (y))\n#define PICK(m, n) (n)\n"),
+        _ => s.push_str("#define SUB(first, second, third) ((third) - (first))\n#define PICK(n) (n + 2)\n"),
+    }
+    // definitions from the command line, one depending on another (see the `det` case options)
+    s.push_str("#ifdef AREA\nunsigned char tarea[AREA];\nconst char karea = AREA + W;\n#endif\n");
     let nt = rng.range(0, 2);
     for i in 0..nt {
         let n = rng.range(2, 5);
@@ -118,6 +127,11 @@ pub fn det_source(idx: u64) -> String {
         s.push_str("}\n");
     }
     s.push_str("void main() {\n");
+    match idx % 3 {
+        0 => s.push_str("  a = SUB(9, 2) + PICK(4);\n"),
+        1 => s.push_str("  a = SUB(2, 9) + PICK(7, 5);\n"),
+        _ => s.push_str("  a = SUB(2, 0, 9) + PICK(3);\n"),
+    }
     for f in 0..nf {
         if rng.chance(2, 3) {
             s.push_str(&format!("  {};\n", call(f)));
@@ -333,6 +347,13 @@ impl Monitor for C05 {
                     o.warnings = vec!["all".into()];
                 }
                 o.insert_code = idx % 5 == 0;
+                match idx % 7 {
+                    2 => o.defines = vec!["W=8".into(), "AREA=W*2".into()],
+                    3 => o.defines = vec!["AREA=W+3".into(), "W=4".into()], // wrong order: an error, the same one every time
+                    4 => o.defines = vec!["W=2".into(), "H=3".into(), "AREA=W*H".into(), "UNUSED".into()],
+                    5 => o.defines = vec!["1BAD=1".into(), "2BAD=2".into()], // two invalid ones: the first is reported
+                    _ => {}
+                }
                 judge(kind, idx, &src, &o, None)
             }
             _ => {
